@@ -90,7 +90,8 @@ def gen_op(rng, type_changing=False):
         lambda: {"op": "add_column", "col": rng.choice(CNAMES_X), "kind": rng.choice(kinds_pool),
                  "unit": rng.choice([None, None, "m", "text", "onoff", "kg", "-"])},
         lambda: {"op": "setitem", "col": rng.choice(CNAMES_X), "kind": rng.choice(kinds_pool)},
-        lambda: {"op": "relabel", "pick": rng.randint(0, 9), "unit": rng.choice(PHYS + ["-"])},
+        lambda: {"op": "relabel", "pick": rng.randint(0, 9), "unit": rng.choice(PHYS + ["-"]),
+                 "via": rng.choice(["proxy", "proxy", "units_setter", "set_all_units"])},
         lambda: {"op": "consult"},
     ]
     direct = [
@@ -364,7 +365,15 @@ class History:
                 # guarantees of C04/C15; the consultation made by t[col] is still recorded
                 self._record(["OConsult"], False)
                 return
-            colp.unit = op["unit"]
+            via = op.get("via", "proxy")
+            if via == "units_setter":
+                t.units = {col: op["unit"]}                      # Table.units setter -> frame.set_units
+            elif via == "set_all_units" and all(c in t.column_metadata for c in df.columns):
+                from pdtable.frame import set_all_units
+
+                set_all_units(df, [op["unit"] if c == col and type(c) is type(col) else t.column_metadata[c].unit for c in df.columns])
+            else:
+                colp.unit = op["unit"]
             self._record(["ORelabel", lab(col), op["unit"]], False)
             return
         if name == "consult":
